@@ -1,13 +1,10 @@
 /-! Hand-frozen expectation (not regenerated): the attribute reads that do NOT go through the full resolution order.
-    Frozen from the tree after the resolution repairs (2a8a64b, 30e4a3f: 79 entries before them); each row is a (function, accessor kind, attribute) the site table may contain with a
-    kind other than `full`.  A new non-full read breaks `Props.C09.C09_sites_partial`. -/
+    Frozen from the tree after the resolution repairs (2a8a64b, 30e4a3f, 992fcab: 79 entries before them; what is left is the root element's `lang`, which mj-attributes cannot address); each row is a (function, accessor kind, attribute) the site table may contain with a
+    kind other than `full`.  A new non-full read breaks `Props.C09.C09_sites`. -/
 namespace Gomjml.Expect.AttrSites
 
 def knownNonFull : List (String × String × String) := [
-  ("mjml.createMJMLComponent", "raw", "lang"),
-  ("mjml/components.(*MJSocialElementComponent).GetDefaultAttribute", "raw", "name"),
-  ("mjml/components.(*MJSocialElementComponent).Render", "raw", "name"),
-  ("mjml/components.(*MJSocialElementComponent).getAttribute", "raw", "name")
+  ("mjml.createMJMLComponent", "raw", "lang")
 ]
 
 end Gomjml.Expect.AttrSites
